@@ -11,7 +11,7 @@ use neurons::tensor::Tensor;
 pub fn meta(ctx: &Ctx) -> Meta {
     let t = ctx.tier.thorough();
     Meta {
-        rule: format!("every layer sequence of <= {} tokens (one configuration deviation) over 5 input shapes that ends in a dense layer x EVERY subset of droppable layers (dense, convolution, deconvolution, layers inside feedback blocks) of size 1..{} carrying dropout (rates 0.5, 0.1, 0.9 depending on the subset) x epochs {{1,2,3}} x with/without validation data. Differential oracles, bit-exact: (i) the last validation pair returned by learn() equals validate() called right afterwards, and the e-th pair of a 3-epoch run equals the last pair of the e-epoch run; (ii) after learn(), predict equals predict of a twin network built WITHOUT dropout holding the same weights; (iii) validate()/predict() of a never-trained network equal the twin's; (iv) every training flag is off after learn() and after validate(); (v) the same after a run that left learn() through its early-stopping exit (tolerance 1); (vii) on every 16th case a validation set of 300 samples; (vi) the same along the call sequence validate, learn (with validation), learn (without), learn (with validation), validate. Non-trivial = a case in which the training-mode forward pass differs from the evaluation-mode one (the mask zeroed a non-zero element)", if t { 4 } else { 3 }, if t { "all" } else { "2" }),
+        rule: format!("every layer sequence of <= {} tokens (one configuration deviation) over 5 input shapes that ends in a dense layer x EVERY subset of droppable layers (dense, convolution, deconvolution, layers inside feedback blocks) of size 1..{} carrying dropout (rates 0.5, 0.1, 0.9 depending on the subset) x epochs {{1,2,3}} x with/without validation data. Differential oracles, bit-exact: (i) the last validation pair returned by learn() equals validate() called right afterwards, and the e-th pair of a 3-epoch run equals the last pair of the e-epoch run; (ii) after learn(), predict equals predict of a twin network built WITHOUT dropout holding the same weights; (iii) validate()/predict() of a never-trained network equal the twin's; (iv) every training flag is off after learn() and after validate(); (v) the same after a run that left learn() through its early-stopping exit (tolerance 1); (vii) on every 16th case a validation set of 300 samples; (viii) every 4th configuration also on data the network already fits exactly (all-zero last layer, targets = its output: training loss exactly 0 in every epoch); (vi) the same along the call sequence validate, learn (with validation), learn (without), learn (with validation), validate. Non-trivial = a case in which the training-mode forward pass differs from the evaluation-mode one (the mask zeroed a non-zero element)", if t { 4 } else { 3 }, if t { "all" } else { "2" }),
         bound: format!("depth <= {}, dropout rates 0.1/0.5/0.9 (fixed-seed mask), 3 samples, batch 2", if t { 4 } else { 3 }),
         exhaustive: true,
         assumptions: vec!["Tensor::dropout uses a fixed seed, so training runs are deterministic and differential comparisons are bit-exact".into()],
@@ -78,15 +78,32 @@ pub fn check(seed: u64, case: &Kv, rep: &mut Report) {
     rep.evaluations += 1;
     let shapes = ref_shapes(&twin_spec).unwrap();
     let key = twin_spec.name();
-    let params: Vec<P<f32>> = params_for(&twin_spec, &shapes, Valuation::Generic, seed, &key).iter().map(|p| p.map(&|v| v * 0.2)).collect();
+    let mut params: Vec<P<f32>> = params_for(&twin_spec, &shapes, Valuation::Generic, seed, &key).iter().map(|p| p.map(&|v| v * 0.2)).collect();
+    // "zeroloss": a network that already fits its data exactly - the last dense layer is all zero and every target is
+    // what that layer then puts out, so every epoch's training loss is exactly 0 and every gradient vanishes
+    let zeroloss = case.opt("data") == Some("zeroloss");
+    if zeroloss {
+        let last = params.len() - 1;
+        params[last] = params[last].map(&|_| 0.0);
+    }
     let n_in = net.input.count();
     let n_out = shapes.last().unwrap().out.count();
     let mut r = Rng::new(seed, fnv(&key) ^ 0x9999);
     let mk = |r: &mut Rng, n: usize| -> Vec<f32> { (0..n).map(|_| r.signed(0.2, 1.0)).collect() };
     let xs: Vec<Tensor> = (0..3).map(|_| tensor(net.input, &mk(&mut r, n_in))).collect();
-    let ts: Vec<Tensor> = (0..3).map(|_| Tensor::single(mk(&mut r, n_out))).collect();
+    let mut ts: Vec<Tensor> = (0..3).map(|_| Tensor::single(mk(&mut r, n_out))).collect();
     let vxs: Vec<Tensor> = (0..2).map(|_| tensor(net.input, &mk(&mut r, n_in))).collect();
-    let vts: Vec<Tensor> = (0..2).map(|_| Tensor::single(mk(&mut r, n_out))).collect();
+    let mut vts: Vec<Tensor> = (0..2).map(|_| Tensor::single(mk(&mut r, n_out))).collect();
+    if zeroloss {
+        let at_zero = match net.layers.last() {
+            Some(L::Dense { act: Act::Sigmoid, .. }) => 0.5f32,
+            Some(L::Dense { act: Act::Softmax, .. }) => 1.0f32 / n_out as f32,
+            _ => 0.0f32,
+        };
+        for t in ts.iter_mut().chain(vts.iter_mut()) {
+            *t = Tensor::single(vec![at_zero; n_out]);
+        }
+    }
     let (xr, tr): (Vec<&Tensor>, Vec<&Tensor>) = (xs.iter().collect(), ts.iter().collect());
     let (vxr, vtr): (Vec<&Tensor>, Vec<&Tensor>) = (vxs.iter().collect(), vts.iter().collect());
     let cls = class(&net);
@@ -142,7 +159,7 @@ pub fn check(seed: u64, case: &Kv, rep: &mut Report) {
             let mut l = fresh(&net).unwrap();
             rep.transitions += epochs as u64 * 3;
             let res = guard(|| if with_val { l.learn(&xr, &tr, Some((&vxr, &vtr, 10)), 2, epochs, None) } else { l.learn(&xr, &tr, None, 2, epochs, None) });
-            let (_, vl, va) = match res {
+            let (tl, vl, va) = match res {
                 Ok(x) => x,
                 Err(e) => {
                     if e.contains("Loss is NaN") {
@@ -154,6 +171,13 @@ pub fn check(seed: u64, case: &Kv, rep: &mut Report) {
                     return;
                 }
             };
+            if tl.iter().any(|v| *v == 0.0) {
+                rep.count("runs_with_an_exactly_zero_training_loss", 1);
+            }
+            if tl.len() != epochs as usize {
+                // how many epochs run is C13's contract, not this property's
+                rep.count("runs_shorter_than_their_budget", 1);
+            }
             // (iv)
             if neurons::verif::training_flags(&l).iter().any(|f| *f) {
                 rep.violate(format!("C09 training flags still set after learn() [{}]", cls), net.name(), case);
@@ -353,6 +377,10 @@ pub fn cases(ctx: &Ctx) -> Vec<Kv> {
             // every 16th case also gets a validation set of 300 samples
             if (out.len() % 16) == 0 {
                 kv.set("bigval", 1);
+            }
+            // every 4th configuration also on data the network already fits exactly
+            if (out.len() % 4) == 1 {
+                out.push(kv.clone().put("data", "zeroloss"));
             }
             out.push(kv);
         }
